@@ -9,7 +9,7 @@ from vp.engine import SubCheck
 
 PROPERTY = "C01"
 RULE = (
-    "(extended 3) apply_mask on already-masked arrays / vector fields (slim- and native-stored) with second masks that unmask pixels the first one hid (all-false, rolled, inverted); values supplied in Fortran order and as non-contiguous views. (extended 2) the other routes to the two forms are covered too: no_mask constructors (native input, slim input + shape_native) followed by apply_mask, Grid2D.from_yx_1d/from_yx_2d, VectorYX2D.from_mask/no_mask/apply_mask and components, native_skip_mask at the unmasked positions, and the public utilities convert_array_2d_to_slim/native, convert_grid_2d_to_slim/native, index_2d_for_index_slim_from / index_slim_for_index_2d_from (and their round trip over every pixel) and the complex slim/native pair; index lists of masks derived from a mask whose lists were read (invert, copy + in-place edit). "
+    "(extended 4) large: masks with more than 2^15 (quick) / 2^16 (thorough) unmasked pixels: array / grid forms and the index lists. (extended 3) apply_mask on already-masked arrays / vector fields (slim- and native-stored) with second masks that unmask pixels the first one hid (all-false, rolled, inverted); values supplied in Fortran order and as non-contiguous views. (extended 2) the other routes to the two forms are covered too: no_mask constructors (native input, slim input + shape_native) followed by apply_mask, Grid2D.from_yx_1d/from_yx_2d, VectorYX2D.from_mask/no_mask/apply_mask and components, native_skip_mask at the unmasked positions, and the public utilities convert_array_2d_to_slim/native, convert_grid_2d_to_slim/native, index_2d_for_index_slim_from / index_slim_for_index_2d_from (and their round trip over every pixel) and the complex slim/native pair; index lists of masks derived from a mask whose lists were read (invert, copy + in-place edit). "
     "(extended) every constructed object is also put through additive arithmetic (x+c, c-x) and the native / slim / round-trip forms of the derived object are checked: masked positions of the native form stay zero. "
     "enum2d: every boolean mask with >=1 unmasked pixel on every shape with H*W<=12 (quick) / <=16 "
     "(thorough) with values 1..H*W, checked for Array2D/Grid2D/VectorYX2D in both storage modes and "
@@ -328,9 +328,48 @@ def body_given2d(case, ctx):
     _check_2d(case["mask"], case["values"], ctx, grid_vals=case["grid_values"])
 
 
+def cases_large(tier):
+    quick = [(192, 193), (259, 262)]
+    more = [(131, 300), (300, 225)]
+    for h, w in (quick if tier == "quick" else quick + more):
+        yield {"h": h, "w": w}
+
+
+def body_large(case, ctx):
+    """More unmasked pixels than a 16-bit index can address: index lists and both forms of arrays / grids."""
+    aa = _aa()
+    h, w = case["h"], case["w"]
+    m = np.ones((h, w), dtype=bool)
+    m[1:h - 1, 2:w - 1] = False
+    m[h // 3:h // 3 + 5, w // 4:w // 4 + 8] = True
+    m[h // 2, ::7] = True
+    un = ~m
+    n = int(un.sum())
+    ctx.nt(n > 2 ** 15)
+    ctx.label("large:n>2^16" if n > 2 ** 16 else "large:n>2^15")
+    yy, xx = np.mgrid[0:h, 0:w]
+    vals = (yy * 1000.0 + xx) + 0.25
+    mask = aa.Mask2D(mask=m.copy(), pixel_scales=1.0)
+    want_slim, want_native = vals[un], np.where(m, 0.0, vals)
+    for given, store_native in (("native", False), ("slim", True), ("slim", False)):
+        a = aa.Array2D(values=(vals.copy() if given == "native" else want_slim.copy()), mask=mask, store_native=store_native)
+        ctx.equal(np.asarray(a.slim), want_slim, "large/array2d/slim", "%s in, store_native=%s" % (given, store_native))
+        ctx.equal(np.asarray(a.native), want_native, "large/array2d/native", "%s in, store_native=%s" % (given, store_native))
+    g = np.stack([vals, -vals], axis=-1)
+    gr = aa.Grid2D(values=g[un].copy(), mask=mask)
+    ctx.equal(np.asarray(gr.native), np.where(m[:, :, None], 0.0, g), "large/grid2d/native", "slim in")
+    ctx.equal(np.asarray(gr.native.slim), g[un], "large/grid2d/roundtrip", "slim -> native -> slim")
+    di = mask.derive_indexes
+    ctx.equal(np.asarray(di.native_for_slim), np.argwhere(un), "large/indexes/native_for_slim", "")
+    ctx.equal(np.asarray(di.unmasked_slim), np.flatnonzero(un), "large/indexes/unmasked_slim", "")
+    ctx.equal(np.asarray(di.masked_slim), np.flatnonzero(m), "large/indexes/masked_slim", "")
+
+
+
 SUBCHECKS = [
     SubCheck("enum2d", body_enum2d, cases=cases_enum2d, shards={"quick": 16, "thorough": 16}),
     SubCheck("enum1d", body_enum1d, cases=cases_enum1d, shards={"quick": 2, "thorough": 4}),
+    SubCheck("large", body_large, cases=cases_large, shards={"quick": 2, "thorough": 4}),
     SubCheck("given2d", body_given2d, strategy=given2d(), examples={"quick": 150, "thorough": 3000},
              shards={"quick": 1, "thorough": 8}),
 ]
